@@ -1,4 +1,5 @@
 import HbsModel.Compile
+import HbsModel.Generated.MacroTable
 /-
   Model of render.rs, context.rs, block.rs, local_vars.rs, partial.rs, helpers/*, decorators/inline.rs,
   support.rs (write_indented) and output.rs.  Deliberately not tidy: it has the four indentation
@@ -447,25 +448,50 @@ def compareJson (x y : Json) : Option Ordering :=
 
 /-! ## handlebars_helper! -/
 
-/-- `@as_json_value x, tpe` : the converted value as JSON (what `json!(x)` of the typed value gives) -/
-def asJsonValue (t : TyTok) (x : Json) : Option Json :=
-  match t, x with
-  | .tObject, .obj m => some (.obj m)
-  | .tArray, .arr a => some (.arr a)
-  | .tStr, .str s => some (.str s)
-  | .tI64, .num n => (n.asI64?).map (fun _ => .num n)
-  | .tU64, .num n => (n.asU64?).map (fun _ => .num n)
-  | .tF64, .num n => some (.num (match n with
+/-- the accessors named by the regenerated `@as_json_value` arms, applied to a value; the result is
+    the converted value as JSON (what `json!(x)` of the typed value gives) -/
+def applyAccessor (acc : String) (x : Json) : Option Json :=
+  match acc, x with
+  | "as_object", .obj m => some (.obj m)
+  | "as_array", .arr a => some (.arr a)
+  | "as_str", .str s => some (.str s)
+  | "as_i64", .num n => (n.asI64?).map (fun _ => .num n)
+  | "as_u64", .num n => (n.asU64?).map (fun _ => .num n)
+  | "as_f64", .num n => some (.num (match n with
       | .pos k => .flt (natToF64 k)
       | .neg k => .flt (natToF64 k + 2 ^ 63)
       | .flt b => .flt b))
-  | .tBool, .bool b => some (.bool b)
-  | .tNull, .null => some .null
-  | .tJson, v => some v
+  | "as_bool", .bool b => some (.bool b)
+  | "as_null", .null => some .null
+  | "identity", v => some v
+  | _, _ => none
+
+def TyTok.token : TyTok → String
+  | .tObject => "object" | .tArray => "array" | .tStr => "str" | .tI64 => "i64"
+  | .tU64 => "u64" | .tF64 => "f64" | .tBool => "bool" | .tNull => "null"
+  | .tJson => "Json" | .tSerdeString => "String" | .tSerdeVecU64 => "Vec"
+
+def lookupAccessor (tbl : List (String × String)) (tok : String) : Option String :=
+  match tbl with
+  | [] => none
+  | (k, v) :: t => if k == tok then some v else lookupAccessor t tok
+
+/-- `serde_json::from_value::<T>(x.clone()).ok()` for the two serde types the harness family uses -/
+def fromValue (t : TyTok) (x : Json) : Option Json :=
+  match t, x with
   | .tSerdeString, .str s => some (.str s)
   | .tSerdeVecU64, .arr a =>
     if a.toList.all (fun v => match v with | .num (.pos _) => true | _ => false) then some (.arr a) else none
   | _, _ => none
+
+/-- `@as_json_value x, tpe` over a table of arms -/
+def asJsonValueWith (tbl : List (String × String)) (t : TyTok) (x : Json) : Option Json :=
+  match lookupAccessor tbl t.token with
+  | some acc => applyAccessor acc x
+  | none => fromValue t x
+
+/-- `@as_json_value x, tpe` of the current source -/
+def asJsonValue (t : TyTok) (x : Json) : Option Json := asJsonValueWith Generated.macroAccessors t x
 
 def TyTok.text : TyTok → Str
   | .tObject => str "object" | .tArray => str "array" | .tStr => str "str" | .tI64 => str "i64"
